@@ -275,7 +275,7 @@ func C17(r *explore.Run) {
 	if r.Tier == "thorough" {
 		maxAll = 12
 	}
-	treeSpaces(r, func(c *explore.Ctx, e *Entry, s string, res ParseResult) {
+	treeSpaces(r, 2, func(c *explore.Ctx, e *Entry, s string, res ParseResult) {
 		checkTraversal(c, res.Roots, !e.Single, maxAll, e.Name+": "+s)
 		outcomeTree(c, e, s, res)
 	})
@@ -434,7 +434,7 @@ func C19(r *explore.Run) {
 	r.Extra("programs", len(catalog.Structs))
 	r.Extra("disagreements_checked", 0)
 	var nodeTypes sync.Map
-	treeSpaces(r, func(c *explore.Ctx, e *Entry, s string, res ParseResult) {
+	treeSpaces(r, 2, func(c *explore.Ctx, e *Entry, s string, res ParseResult) {
 		for _, v := range allNodes(res.Roots) {
 			for sig, d := range checkPosSpec(v.Node) {
 				c.Violation(sig, e.Name+": "+s, d)
